@@ -131,9 +131,9 @@ def _history_cases(case):
     for _ in range(case["count"]):
         n = int(rng.integers(2, 11)) if rng.random() < 0.7 else int(rng.integers(2, 6))
         d = 2 if rng.random() < 0.65 else 3
-        chi = int(rng.choice([1, 2, 4, 8, 16, 32])) if d ** n <= 60000 else 4
-        if d ** n > 60000:
-            n = 8
+        if d == 3 and n > 7:
+            n = 7  # the dense shadow of an MPO on 3^8 states would not fit in memory
+        chi = int(rng.choice([1, 2, 4, 8, 16, 32]))
         prec = float(10 ** rng.uniform(-12, -2))
         cap = int(rng.choice([1, 2, 3, 5, 8, 16, 64, 1024]))
         psi = tn.rand_mps(rng, n, d, chi, precision=prec, max_bond_dim=cap, scale=float(10 ** rng.uniform(-1, 1)),
